@@ -7,6 +7,7 @@ import (
 	"flag"
 	"fmt"
 	"os"
+	"runtime/pprof"
 	"strings"
 
 	"github.com/scionproto/scion/private/path/combinator"
@@ -20,7 +21,14 @@ func main() {
 	mode := flag.String("mode", "honest", "honest|line|tamper|fault|alert|topo")
 	topos := flag.String("topos", "T1,T2,T3", "topology families")
 	maxJ := flag.Int("max", 0, "maximum number of journeys per topology (0 = all)")
+	nrand := flag.Int("random", 0, "number of additional seeded random topologies (honest mode)")
+	prof := flag.String("cpuprofile", "", "write a CPU profile")
 	flag.Parse()
+	if *prof != "" {
+		f, _ := os.Create(*prof)
+		_ = pprof.StartCPUProfile(f)
+		defer pprof.StopCPUProfile()
+	}
 	w := vt.NewWriter(*out)
 	defer w.Close()
 	st := &stats{}
@@ -33,9 +41,17 @@ func main() {
 		case "topo":
 			w.Emit(map[string]any{"ev": "topo", "t": t.JSON()})
 		case "honest":
-			honest(w, t, *maxJ, st)
+			honest(w, t, 4, *maxJ, st)
+		case "line":
+			line(w, st)
 		default:
 			vt.Fatal("unknown mode %q", *mode)
+		}
+	}
+	if *mode == "honest" {
+		rng := vt.Rand(77)
+		for i := 0; i < *nrand; i++ {
+			honest(w, dp.Random(rng, 5+rng.Intn(8)), 5, 60, st)
 		}
 	}
 	fmt.Fprintf(os.Stderr, "dp: journeys=%d events=%d\n", st.journeys, w.N)
@@ -55,9 +71,9 @@ func topoByName(n string) *dp.Topo {
 	return nil
 }
 
-func honest(w *vt.Writer, t *dp.Topo, maxJ int, st *stats) {
+func honest(w *vt.Writer, t *dp.Topo, maxLen, maxJ int, st *stats) {
 	rng := vt.Rand(int64(len(t.Name)) + int64(t.Name[1]))
-	c := dp.NewControl(t, rng, 4)
+	c := dp.NewControl(t, rng, maxLen)
 	c.Beacon()
 	n := dp.NewNet(c, dp.NetOpts{})
 	w.Emit(map[string]any{"ev": "topo", "t": t.JSON()})
@@ -69,6 +85,12 @@ func honest(w *vt.Writer, t *dp.Topo, maxJ int, st *stats) {
 			}
 			ups, cores, downs := c.SegsFor(src, dst)
 			paths := combinator.Combine(t.ASes[src].IA, t.ASes[dst].IA, ups, cores, downs, true)
+			if maxJ > 0 { // sample: a seeded shuffle so that the cap does not favour one pair
+				rng.Shuffle(len(paths), func(i, j int) { paths[i], paths[j] = paths[j], paths[i] })
+				if len(paths) > 3 {
+					paths = paths[:3]
+				}
+			}
 			for _, p := range paths {
 				if maxJ > 0 && k >= maxJ {
 					return
@@ -81,6 +103,97 @@ func honest(w *vt.Writer, t *dp.Topo, maxJ int, st *stats) {
 				}
 				n.Run(w, src, dst, p, dp.JourneyOpts{ID: st.journeys, Mode: "honest", PT: "scion",
 					L4: "udp", HBH: k%3 == 0, E2E: k%4 == 1, Rev: rev, Rng: rng})
+			}
+		}
+	}
+}
+
+// line: C22 binding.  Line topologies of n ASes (segments of n hop fields), peering links at every
+// position for n <= 8 and at first/middle/last otherwise; every path the real combinator returns
+// between the ends of the branches and a sample of interior pairs.
+func line(w *vt.Writer, st *stats) {
+	ns := []int{2, 3, 4, 5, 8, 16, 63}
+	if vt.Thorough() {
+		ns = []int{2, 3, 4, 5, 8, 16, 33, 63}
+	}
+	for _, n := range ns {
+		var peers []int
+		if n <= 8 {
+			for p := 1; p < n; p++ {
+				peers = append(peers, p)
+			}
+		} else {
+			peers = []int{1, n / 2, n - 1}
+		}
+		t := dp.Line(n, peers, n%2 == 1)
+		rng := vt.Rand(int64(1000 + n))
+		c := dp.NewControl(t, rng, n)
+		c.Beacon()
+		net := dp.NewNet(c, dp.NetOpts{})
+		w.Emit(map[string]any{"ev": "topo", "t": t.JSON()})
+		idx := func(name string) int {
+			for i, a := range t.ASes {
+				if a.Name == name {
+					return i
+				}
+			}
+			return -1
+		}
+		deep := idx(fmt.Sprintf("A%d", n-1))
+		var pairs [][2]int
+		if n == 2 {
+			deep = idx("A1")
+		}
+		others := []string{"C0", "B1", "B2", "B3", "A1", fmt.Sprintf("A%d", n/2)}
+		if !vt.Thorough() && n > 8 {
+			others = []string{"C0", "B3", fmt.Sprintf("A%d", n/2)}
+		}
+		for _, o := range others {
+			if x := idx(o); x >= 0 && x != deep {
+				pairs = append(pairs, [2]int{deep, x}, [2]int{x, deep})
+			}
+		}
+		if n <= 5 || (n <= 8 && vt.Thorough()) {
+			pairs = nil
+			for a := range t.ASes {
+				for b := range t.ASes {
+					if a != b {
+						pairs = append(pairs, [2]int{a, b})
+					}
+				}
+			}
+		}
+		seen := map[[2]int]bool{}
+		for _, pr := range pairs {
+			if seen[pr] {
+				continue
+			}
+			seen[pr] = true
+			ups, cores, downs := c.SegsFor(pr[0], pr[1])
+			paths := combinator.Combine(t.ASes[pr[0]].IA, t.ASes[pr[1]].IA, ups, cores, downs, true)
+			capn := 6
+			if !vt.Thorough() {
+				capn = 1
+				if n == 8 || (n > 8 && t.ASes[pr[1]].Name == "B3") {
+					capn = 2
+				}
+			}
+			if n <= 8 && vt.Thorough() {
+				capn = len(paths)
+			}
+			// evenly spaced sample of the (weight-sorted) list: shortcuts, peerings and full paths
+			var pick []int
+			for i := 0; i < capn && i < len(paths); i++ {
+				pick = append(pick, (i*len(paths)/min(capn, len(paths))+len(seen))%len(paths))
+			}
+			for k, pi := range pick {
+				p := paths[pi]
+				if len(p.SCIONPath.Raw) == 0 {
+					continue
+				}
+				st.journeys++
+				net.Run(w, pr[0], pr[1], p, dp.JourneyOpts{ID: st.journeys, Mode: "honest",
+					PT: "scion", L4: "udp", Rev: []string{"pather", "raw"}[k%2], Rng: rng})
 			}
 		}
 	}
